@@ -73,9 +73,24 @@ type jobctlWorld struct {
 	kubeletDead    bool                 // the kubelet never finishes terminating a deleted pod (node unreachable)
 	forceKind      *int                 // scenarios: the next kubelet termination is of this kind (0 = Succeeded, 2 = Failed)
 	keepMonitors   bool                 // scenarios replaying a known finding that lies outside E-OrphanVisible / E-NoUnrecordedWhenFinished (F25): the envelope is still counted, but the monitors stay on
+
+	// kubelet ground truth (what the simulated kubelet really did, whatever the pod status shows)
+	trueFinish        map[string]int64 // name -> instant (ns) at which the kubelet put the pod into a terminal phase
+	finishUnreported  map[string]bool  // ... and the pod status carries no container termination time for it (eviction, node lost, DeadlineExceeded): outside E-FinishTimeReported
+	everRan           map[string]int64 // name -> instant (ns) at which the kubelet first started a container of the pod
+	ctlDeleted        map[string]bool  // the controller itself issued a successful delete for this pod
+	deletedUnlisted   map[string]bool  // ... in a pass after which the authoritative status did not list it: outside E-DeleteRecorded
+	promptUnscheduled bool             // API server behaviour: a graceful delete of a pod that no kubelet has acknowledged removes the object at once
+	pinnedPods        bool             // the pod template carries a finalizer (NewPod copies it): a pod survives every delete, also with gracePeriodSeconds=0, until the finalizer's owner releases it; monitors-only histories (Ctx.Mute)
+	forceDeleted      map[string]bool  // the controller issued a successful force delete for this pod
 }
 
 func (w *jobctlWorld) now() int64 { return w.clk.Now().UnixNano() }
+
+func newJobctlWorld(c *Ctx, rng *rand.Rand) *jobctlWorld {
+	return &jobctlWorld{c: c, rng: rng, podsCreated: map[string]int64{}, foreign: map[string]bool{}, foreignRec: map[string]bool{}, ownSucceeded: map[string]bool{},
+		trueFinish: map[string]int64{}, finishUnreported: map[string]bool{}, everRan: map[string]int64{}, ctlDeleted: map[string]bool{}, deletedUnlisted: map[string]bool{}, forceDeleted: map[string]bool{}}
+}
 
 func (w *jobctlWorld) boot() {
 	w.ctx.Sim().Jobs().ResetHandlers()
@@ -187,8 +202,11 @@ func podDigest(p *corev1.Pod) string {
 	if ref := metav1.GetControllerOf(p); ref != nil && ref.Kind == execution.KindJob {
 		owner = string(ref.UID)
 	}
-	st, fi, oom := "-", "-", "0"
+	st, fi, oom, last := "-", "-", "0", "-"
 	for _, cs := range p.Status.ContainerStatuses {
+		if t := cs.LastTerminationState.Terminated; t != nil {
+			last = tsec(&t.StartedAt) + "," + tsec(&t.FinishedAt) // the container was restarted (restartPolicy OnFailure)
+		}
 		if cs.State.Running != nil {
 			st = tsec(&cs.State.Running.StartedAt)
 		}
@@ -202,9 +220,9 @@ func podDigest(p *corev1.Pod) string {
 	}
 	ct := p.CreationTimestamp
 	reason, _ := podtaskexecutor.NewPodTask(p, nil).GetReasonMessage()
-	return fmt.Sprintf("%s|%s|%s|%s|%s|%s|%s|%s|%s|%s|%s|%s", p.Name, owner, tsec(&ct), orDash(p.Labels[podtaskexecutor.LabelKeyTaskRetryIndex]),
+	return fmt.Sprintf("%s|%s|%s|%s|%s|%s|%s|%s|%s|%s|%s|%s|%s", p.Name, owner, tsec(&ct), orDash(p.Labels[podtaskexecutor.LabelKeyTaskRetryIndex]),
 		orDash(p.Labels[podtaskexecutor.LabelKeyTaskParallelIndexHash]), tsec(p.DeletionTimestamp), orDash(string(p.Status.Phase)),
-		tsec(p.Status.StartTime), st, fi, oom, orDash(reason))
+		tsec(p.Status.StartTime), st, fi, oom, orDash(reason), last)
 }
 
 func (w *jobctlWorld) state() string {
@@ -316,6 +334,7 @@ func (w *jobctlWorld) work() {
 	}
 	w.c.Emit("jc.work", fmt.Sprintf("%s calls=%s %s", res, jcCallsStr(w.api.Calls), w.state()))
 	w.c.Count("jc.work." + res)
+	w.afterPass()
 	if w.ttlDeleteAt != 0 {
 		// the finished condition is written after the delete call of the same sync
 		if j := w.apiJob(); j != nil {
@@ -356,6 +375,45 @@ func (w *jobctlWorld) work() {
 	}
 	w.ttlPassStatus = nil
 	w.monitorJobVersion()
+}
+
+// afterPass: (a) E-DeleteRecorded — a pass that deleted a task of the Job leaves that task listed in
+// the authoritative status (the status write that records it was applied).  Outside it (the write
+// failed: injected fault, or the conflict the controller causes itself by sending UpdateStatus with
+// the resourceVersion that its own Update has just made stale) the task can go away before it is
+// ever listed; such histories are counted, and judged only by the replay of the known finding F31.
+// (b) the API server removes a pod that no kubelet has acknowledged at once on a graceful delete
+// (pod strategy CheckGracefulDelete: no node => grace period 0); SimAPI lets every pod linger,
+// which is the conservative choice for the generated histories, so the prompt removal is an option
+// of the world (`promptUnscheduled`) that is applied right after the pass: the controller does not
+// look at a pod again in the pass that deleted it.
+func (w *jobctlWorld) afterPass() {
+	j := w.apiJob()
+	listed := map[string]bool{}
+	if j != nil {
+		for _, r := range j.Status.Tasks {
+			listed[r.Name] = true
+		}
+	}
+	for _, cl := range w.api.Calls {
+		if cl.Verb != "delete" || cl.Resource != "pods" || cl.Result != "ok" {
+			continue
+		}
+		_, name, _ := strings.Cut(cl.Key, "/")
+		if j != nil && w.ctlDeleted[name] && !listed[name] && !w.deletedUnlisted[name] {
+			w.deletedUnlisted[name] = true
+			w.c.Count("jc.envelope.task-deleted-but-not-recorded")
+		}
+	}
+	if w.promptUnscheduled {
+		for _, p := range w.ownedPods() {
+			if p.DeletionTimestamp != nil && p.Status.Phase == "" && p.Status.StartTime == nil && p.Spec.NodeName == "" {
+				w.api.Remove("pods", "ns/"+p.Name)
+				w.c.Count("jc.api.unscheduled-pod-removed-at-once")
+				w.c.Emit(fmt.Sprintf("jc.pod %s gone", p.Name), w.state())
+			}
+		}
+	}
 }
 
 // oracleDecided: is the completion strategy already decided by what the sync that is about to
@@ -428,6 +486,33 @@ func (w *jobctlWorld) oracleDecided() string {
 		return "AllSuccessful: an index used all its attempts without success"
 	}
 	return ""
+}
+
+// podReportsTermination: some container status of the pod carries a termination time (read off the
+// object, not through the code under test).
+func podReportsTermination(p *corev1.Pod) bool {
+	for _, cs := range p.Status.ContainerStatuses {
+		for _, t := range []*corev1.ContainerStateTerminated{cs.State.Terminated, cs.LastTerminationState.Terminated} {
+			if t != nil && !t.FinishedAt.IsZero() && t.FinishedAt.Unix() != 0 {
+				return true
+			}
+		}
+	}
+	return false
+}
+
+// podShowsStart: some container status of the pod shows, in its CURRENT state, when the container
+// was started (read off the object, not through the code under test).
+func podShowsStart(p *corev1.Pod) bool {
+	for _, cs := range p.Status.ContainerStatuses {
+		if r := cs.State.Running; r != nil && !r.StartedAt.IsZero() && r.StartedAt.Unix() != 0 {
+			return true
+		}
+		if t := cs.State.Terminated; t != nil && !t.StartedAt.IsZero() && t.StartedAt.Unix() != 0 {
+			return true
+		}
+	}
+	return false
 }
 
 func podOOM(p *corev1.Pod) bool {
@@ -738,6 +823,13 @@ func (w *jobctlWorld) monitorCall(c sim.Call) {
 		if c.Result == "ok" {
 			w.c.Count("jc.pod-create-ok")
 			w.podsCreated[name] = w.now()
+			// a new incarnation of the name: the kubelet ground truth of an earlier one is not its own
+			delete(w.trueFinish, name)
+			delete(w.finishUnreported, name)
+			delete(w.everRan, name)
+			delete(w.ctlDeleted, name)
+			delete(w.deletedUnlisted, name)
+			delete(w.forceDeleted, name)
 		} else {
 			w.c.Count("jc.pod-create-exists")
 		}
@@ -748,6 +840,12 @@ func (w *jobctlWorld) monitorCall(c sim.Call) {
 			return
 		}
 		if c.Result != "ok" {
+			// the create was answered AlreadyExists.  C09: an object that occupies a task's name without
+			// belonging to the Job "makes the Job end in AdmissionError instead of retrying forever": once
+			// the Job the sync read IS finished with AdmissionError, the create is not attempted again
+			if cf := w.cachedJob.Status.Condition.Finished; cf != nil && cf.Result == execution.JobResultAdmissionError && w.cachedJob.DeletionTimestamp == nil {
+				w.c.Violate("C09", "foreign-ends-admission-error", "the create of pod %s was attempted again (answered AlreadyExists) although the Job the sync read had already ended in AdmissionError: the admission error does not stop the retries", name)
+			}
 			return
 		}
 		// E-NoStaleCopyOnCreate (known finding F19): a sync acting on a STALE Job (its own earlier
@@ -774,7 +872,10 @@ func (w *jobctlWorld) monitorCall(c sim.Call) {
 				return
 			}
 		}
-		if w.decidedAtSync != "" {
+		// (the oracle looks at the pods a task NAME denotes now; once a name has had two incarnations —
+		// E-NoStaleCopyOnCreate left, known finding F19 — the outcome the controller recorded may be the
+		// previous incarnation's: tagged histories are judged only by the replays of F19)
+		if w.decidedAtSync != "" && !w.staleRecreate {
 			w.c.Violate("C08", "no-create-once-complete", "pod %s created although the Job was already complete for this sync (%s)", name, w.decidedAtSync)
 		}
 		// no create when stopped: judged on the Job version the sync read (informer lag is
@@ -857,10 +958,35 @@ func (w *jobctlWorld) monitorCall(c sim.Call) {
 				w.c.Violate("C08", "retry-delay-respected", "pod %s created at %d, before previous finish %d + delay %v", name, w.now(), latestFinish, delay)
 			}
 		}
+		// ... and the same clause on GROUND TRUTH: the instant at which the simulated kubelet really
+		// ended each earlier attempt of the index (the recorded finish time above is what the
+		// controller derived from the pod status).  E-FinishTimeReported: the pod status of a
+		// terminated attempt carries a container termination time; outside it (eviction, node lost,
+		// DeadlineExceeded: no container status) the history is counted, and judged only by the
+		// replay of the known finding F30.
+		if delay := int64(j.GetRetryDelay()); retry > 0 {
+			for k := 0; k < retry; k++ {
+				prev := fmt.Sprintf("%s-%s-%d", j.Name, hash, k)
+				tf, ok := w.trueFinish[prev]
+				if !ok || w.now() >= tf+delay {
+					continue
+				}
+				if w.finishUnreported[prev] && !w.keepMonitors {
+					w.c.Count("jc.envelope.retry-judged-on-unreported-finish-time")
+					continue
+				}
+				w.c.Violate("C08", "retry-delay-true-finish", "pod %s created at %d s although the previous attempt %s really finished at %d s (kubelet ground truth) and the retry delay is %d s; the finish time recorded for it is %s",
+					name, w.now()/1e9, prev, tf/1e9, delay/1e9, tsec(have[int64(k)].FinishTimestamp))
+			}
+		}
 	case c.Verb == "delete" && c.Resource == "pods" && c.Result == "ok":
 		w.c.Count("jc.pod-delete")
+		if pod := w.apiPod(name); pod != nil && w.ownedBy(pod) {
+			w.ctlDeleted[name] = true
+		}
 		if c.Force {
 			w.c.Count("jc.pod-force-delete")
+			w.forceDeleted[name] = true
 		}
 		w.monitorPodDelete(name, c.Force)
 	case c.Verb == "update" && c.Resource == "jobs" && c.Subresource == "status" && c.Result != "ok":
@@ -992,9 +1118,19 @@ func (w *jobctlWorld) monitorPendingMarkers(submitted *execution.Job) {
 			w.c.Violate("C12", "pending-not-early", "task %s reaped for pending timeout at %d, created %d, timeout %ds: deadline %d not reached",
 				r.Name, now.Unix(), r.CreationTimestamp.Unix(), *t, dl.Unix())
 		}
-		if !r.RunningTimestamp.IsZero() {
-			// the running time was learnt from a live read, the sync was then served an older, still
-			// pending copy by the pod cache (outside E-PodCacheFresh): observed, not claimed
+		// "a task that has not begun running": ground truth is whether the simulated kubelet ever
+		// started a container of this task.  When even the CURRENT pod object on the server does not
+		// show a container start (the container is waiting to be restarted: restartPolicy OnFailure,
+		// CrashLoopBackOff) the reaping is the controller's own doing; when the server's pod does show
+		// it, the sync was served an older, still pending copy by the pod cache (outside
+		// E-PodCacheFresh): observed, not claimed.
+		ran, didRun := w.everRan[r.Name]
+		live := w.apiPod(r.Name)
+		switch {
+		case didRun && live != nil && w.ownedBy(live) && podAlive(live) && !podShowsStart(live):
+			w.c.Violate("C12", "pending-only-never-ran", "task %s reaped for PENDING timeout at %d s although it had begun running: the kubelet started its container at %d s (recorded runningTimestamp %s); its container is now waiting to be restarted, so the pod no longer shows a start time",
+				r.Name, now.Unix(), ran/1e9, tsec(r.RunningTimestamp))
+		case !r.RunningTimestamp.IsZero() || didRun:
 			w.c.Count("jc.observed.reaped-although-recorded-running(stale pod cache)")
 		}
 	}
@@ -1242,7 +1378,7 @@ func runJobCtl(c *Ctx) {
 func i64p(v int64) *int64 { return &v }
 
 func jobctlCase(c *Ctx, rng *rand.Rand) {
-	w := &jobctlWorld{c: c, rng: rng, podsCreated: map[string]int64{}, foreign: map[string]bool{}, foreignRec: map[string]bool{}, ownSucceeded: map[string]bool{}}
+	w := newJobctlWorld(c, rng)
 	w.ctx = sim.NewContext()
 	w.clk = fakeclock.NewFakeClock(sim.VirtualBase.Add(time.Duration(rng.Intn(100000)) * time.Second))
 	ktime.Clock = w.clk
@@ -1320,6 +1456,19 @@ func jobctlCase(c *Ctx, rng *rand.Rand) {
 		tmpl.Parallelism = ps
 	}
 	j.Spec.Template = tmpl
+	if rng.Intn(25) == 0 {
+		// pods pinned by a finalizer (1 history in 25, judged by the monitors only: the model's pods
+		// have no finalizers).  The finalizer comes from the Job's pod template (NewPod copies it; a
+		// third-party controller or webhook adding one has the same effect): the pod object survives
+		// every delete, also the force delete, with its deletion timestamp set, until the finalizer's
+		// owner releases it.  Longer retry / timeout settings so that force deletion is reached.
+		tmpl.TaskTemplate.Pod.ObjectMeta.Finalizers = []string{"example.com/hold"}
+		w.pinnedPods, c.Mute = true, true
+		c.Count("jc.mode.pinned-pods(monitors-only)")
+		if rng.Intn(2) == 0 {
+			tmpl.MaxAttempts = i64p(int64(2 + rng.Intn(2)))
+		}
+	}
 	if rng.Intn(4) == 0 {
 		j.Spec.TTLSecondsAfterFinished = i64p([]int64{0, 5, 100}[rng.Intn(3)])
 	}
@@ -1466,7 +1615,20 @@ func jobctlCase(c *Ctx, rng *rand.Rand) {
 				w.monitorJobVersion()
 			}
 		case r < 90: // fault
-			f := []string{sim.FaultErr, sim.FaultConflict, sim.FaultTimeout}[rng.Intn(3)]
+			f := []string{sim.FaultErr, sim.FaultConflict, sim.FaultTimeout, sim.FaultForbidden}[rng.Intn(4)]
+			if k := w.dueCreates(); k > 0 && len(w.faults) == 0 && rng.Intn(5) == 0 {
+				// a pod create of the next pass is answered 403 Forbidden (exhausted quota, ...): some
+				// of the pass's tasks are admitted, this one is not; it must simply be retried
+				at := rng.Intn(k)
+				for i := 0; i < at; i++ {
+					w.faults = append(w.faults, "")
+					c.Emit("jc.fault -", w.state())
+				}
+				w.faults = append(w.faults, sim.FaultForbidden)
+				c.Emit("jc.fault "+sim.FaultForbidden, w.state())
+				c.Count("jc.fault.forbidden-aimed-at-pod-create")
+				continue
+			}
 			if k := w.dueCreates(); k > 0 && len(w.faults) == 0 && rng.Intn(2) == 0 {
 				// aim at the status write that follows the creates of the next pass: the tasks are
 				// created but stay unrecorded (the crash / fault window C09 is about)
@@ -1479,6 +1641,24 @@ func jobctlCase(c *Ctx, rng *rand.Rand) {
 			w.faults = append(w.faults, f)
 			c.Emit("jc.fault "+f, w.state())
 		case r < 92: // foreign pod on the next task name of some index
+			if rng.Intn(3) == 0 {
+				// ... or the owner of a foreign pod removes it again: the name is free from now on.  A
+				// Job that ended in AdmissionError because of it stays that way (nothing is retried).
+				var names []string
+				for name := range w.foreign {
+					if p := w.apiPod(name); p != nil && !w.ownedBy(p) {
+						names = append(names, name)
+					}
+				}
+				sort.Strings(names)
+				if len(names) > 0 {
+					name := names[rng.Intn(len(names))]
+					w.api.Remove("pods", "ns/"+name)
+					c.Emit(fmt.Sprintf("jc.pod %s gone", name), w.state())
+					c.Count("jc.foreign-removed")
+				}
+				continue
+			}
 			if jj := w.apiJob(); jj != nil && len(w.indexHashes) > 0 {
 				h := w.indexHashes[rng.Intn(len(w.indexHashes))]
 				name := fmt.Sprintf("job-%s-%d", h, rng.Intn(2))
@@ -1593,6 +1773,18 @@ func (w *jobctlWorld) kubelet(p *corev1.Pod, action int) {
 		action = 4 // the container completes during the grace period; the object goes away later
 	}
 	switch {
+	case w.pinnedPods && p.DeletionTimestamp != nil && action < 4:
+		// the kubelet stops the containers of a deleted pod; the object stays (finalizer)
+		if !podAlive(p) {
+			return
+		}
+		w.api.Mutate("pods", key, func(o runtime.Object) {
+			pp := o.(*corev1.Pod)
+			pp.Status.Phase = corev1.PodFailed
+			pp.Status.ContainerStatuses = []corev1.ContainerStatus{{Name: "c", State: corev1.ContainerState{Terminated: &corev1.ContainerStateTerminated{StartedAt: now, FinishedAt: now, ExitCode: 137, Reason: "Error"}}}}
+		})
+		w.trueFinish[p.Name] = w.now()
+		act = "pinned-stopped"
 	case p.DeletionTimestamp != nil && action < 4:
 		// kubelet finishes terminating a deleted pod
 		w.api.Remove("pods", key)
@@ -1613,6 +1805,9 @@ func (w *jobctlWorld) kubelet(p *corev1.Pod, action int) {
 			}
 			pp.Status.ContainerStatuses = []corev1.ContainerStatus{{Name: "c", State: corev1.ContainerState{Running: &corev1.ContainerStateRunning{StartedAt: now}}}}
 		})
+		if _, ok := w.everRan[p.Name]; !ok {
+			w.everRan[p.Name] = w.now()
+		}
 		act = "running"
 	case action <= 5 && podAlive(p):
 		kind := w.rng.Intn(5)
@@ -1657,6 +1852,12 @@ func (w *jobctlWorld) kubelet(p *corev1.Pod, action int) {
 				pp.Status.ContainerStatuses = nil
 			}
 		})
+		// ground truth: the attempt ended NOW, whatever the pod status lets the controller derive
+		w.trueFinish[p.Name] = w.now()
+		if np := w.apiPod(p.Name); np != nil && !podReportsTermination(np) {
+			w.finishUnreported[p.Name] = true // E-FinishTimeReported does not hold for this pod
+			w.c.Count("jc.envelope.finish-time-not-reported")
+		}
 		act = "term" + fmt.Sprint(kind)
 	case action == 6:
 		// the pod object vanishes (node lost + GC, manual delete)
@@ -1710,6 +1911,13 @@ func (w *jobctlWorld) runTimersOut() {
 		}
 		if !w.kubeletDead {
 			for _, p := range w.ownedPods() {
+				if p.DeletionTimestamp != nil && w.pinnedPods {
+					if podAlive(p) {
+						w.kubelet(p, 0) // the containers are stopped, the object stays
+						progressed = true
+					}
+					continue
+				}
 				if p.DeletionTimestamp != nil {
 					w.api.Remove("pods", "ns/"+p.Name)
 					w.c.Count("jc.kubelet.gone")
@@ -1777,6 +1985,29 @@ func (w *jobctlWorld) finalMonitors() {
 			w.c.Violate("C09", "never-forgotten", "live pod %s owned by the Job is not listed in status.tasks at quiescence (Job phase %s)", p.Name, j.Status.Phase)
 		}
 	}
+	// C09: "every task the Job ever created stays listed in its status ... even after the task object
+	// is gone".  Ground truth: the pods this controller created (create answered ok) and itself
+	// deleted.  (A task that was created, never recorded because the write failed, and then removed
+	// by somebody ELSE before any pass saw it cannot be known to any controller that does not record
+	// its intent first; that is not judged.)  Inside E-DeleteRecorded this follows from refs-monotone;
+	// outside it only the replay of the known finding F31 is judged.
+	if jobutil.IsStarted(j) && j.DeletionTimestamp == nil {
+		var names []string
+		for name := range w.podsCreated {
+			names = append(names, name)
+		}
+		sort.Strings(names)
+		for _, name := range names {
+			if listed[name] || w.apiPod(name) != nil || !w.ctlDeleted[name] || w.staleRecreate {
+				continue
+			}
+			if w.deletedUnlisted[name] && !w.keepMonitors {
+				continue // counted as jc.envelope.task-deleted-but-not-recorded
+			}
+			w.c.Violate("C09", "created-stays-listed", "task %s was created by the controller at %d s and deleted by the controller, and status.tasks (%d refs) does not list it at quiescence (Job phase %s)",
+				name, w.podsCreated[name]/1e9, len(j.Status.Tasks), j.Status.Phase)
+		}
+	}
 	// C09: foreign objects are never adopted.  A name that was never one of the Job's tasks is never
 	// listed.  A name that WAS recorded for the Job's own pod stays listed when a foreign pod takes it
 	// after that pod vanished; the ref must then be what a vanished task gets — finished (lost, or
@@ -1817,18 +2048,50 @@ func (w *jobctlWorld) finalMonitors() {
 	quiet := w.q.NextDeadline() == 0 && w.q.Len() == 0
 	if quiet && force > 0 && !forbid && jobutil.IsStarted(j) && j.DeletionTimestamp == nil && !w.envelopeBroken {
 		for _, p := range w.ownedPods() {
+			if w.pinnedPods && w.forceDeleted[p.Name] {
+				continue // it WAS force-deleted; its finalizer keeps the object
+			}
 			if p.DeletionTimestamp != nil && p.DeletionTimestamp.Add(force).Before(w.clk.Now()) && listed[p.Name] {
 				w.c.Violate("C12", "force-delete-eventually", "task %s has been terminating since %d (force-delete timeout %v, clock %d) and was not force-deleted at quiescence",
 					p.Name, p.DeletionTimestamp.Unix(), force, w.clk.Now().Unix())
 			}
 		}
 	}
+	// C10: "a Job that is not being deleted is reported finished only when none of its tasks is still
+	// alive" — at quiescence (every event delivered, nothing scheduled) this holds without any
+	// envelope: a task that was invisible when the Job was written finished (known finding F25) has
+	// reached the pod cache by now, the Job was re-opened, the task adopted and stopped.
+	if quiet {
+		w.judgeFinishedNoLiveTask()
+	}
 	// C10: once the strategy is decided the Job does reach that result (tasks no longer needed are
 	// stopped: gracefully if the kubelet cooperates, else by force deletion when permitted)
 	w.cachedJob = j
 	if dec := w.oracleDecidedTruth(j); quiet && dec != "" && jobutil.IsStarted(j) && j.DeletionTimestamp == nil && !w.envelopeBroken &&
-		j.Status.Condition.Finished == nil && (!w.kubeletDead || (force > 0 && !forbid)) {
+		j.Status.Condition.Finished == nil && (!w.kubeletDead || (force > 0 && !forbid)) && !(w.pinnedPods && w.kubeletDead) {
 		w.c.Violate("C10", "decided-then-reached", "completion is decided (%s) but the Job is %s at quiescence", dec, j.Status.Phase)
+	}
+}
+
+// judgeFinishedNoLiveTask (C10, no envelope): every event is delivered and no pass is pending; a Job
+// that is reported finished (other than AdmissionError) and is not being deleted has no task that is
+// alive and not being deleted.  Called at quiescence, and by the replays of F25 before the TTL timer
+// of the finished Job is run out.
+func (w *jobctlWorld) judgeFinishedNoLiveTask() {
+	j := w.apiJob()
+	if j == nil {
+		return
+	}
+	listed := map[string]bool{}
+	for _, r := range j.Status.Tasks {
+		listed[r.Name] = true
+	}
+	if cf := j.Status.Condition.Finished; cf != nil && cf.Result != execution.JobResultAdmissionError && j.DeletionTimestamp == nil && !w.staleRecreate {
+		for _, p := range w.ownedPods() {
+			if podAlive(p) && p.DeletionTimestamp == nil {
+				w.c.Violate("C10", "finished-no-live-task-at-quiescence", "at quiescence the Job is reported %s while its task %s is alive (phase %q, listed in status.tasks: %v) and nothing is scheduled that would stop it", cf.Result, p.Name, p.Status.Phase, listed[p.Name])
+			}
+		}
 	}
 }
 
